@@ -399,8 +399,15 @@ func (m *IntegerPreAgg) addSum(v float64) { m.values[sumIndex] += int64(v) }
 func (m *IntegerPreAgg) addCount(n int64) { m.values[countIndex] += n }
 
 func (m *IntegerPreAgg) merge(other *IntegerPreAgg) {
-	m.addMin(float64(other.values[minIndex]), other.values[minTIndex])
-	m.addMax(float64(other.values[maxIndex]), other.values[maxTIndex])
+	// compare as int64: a detour through float64 rounds values above 2^53
+	if v, tm := other.values[minIndex], other.values[minTIndex]; v < m.values[minIndex] ||
+		(v == m.values[minIndex] && tm < m.values[minTIndex]) {
+		m.values[minIndex], m.values[minTIndex] = v, tm
+	}
+	if v, tm := other.values[maxIndex], other.values[maxTIndex]; v > m.values[maxIndex] ||
+		(v == m.values[maxIndex] && tm < m.values[maxTIndex]) {
+		m.values[maxIndex], m.values[maxTIndex] = v, tm
+	}
 	m.values[sumIndex] += other.values[sumIndex]
 	m.values[countIndex] += other.values[countIndex]
 }
